@@ -50,6 +50,9 @@ type plan struct {
 	Phases     []phase `json:"phases"`
 	Solo       bool    `json:"solo,omitempty"`  // re-run every op alone at the end
 	Probe      bool    `json:"probe,omitempty"` // finally swap the source and report what was installed
+	// Env: extra environment variables for the child process (hostile settings of variables whose
+	// names appear as literals in the code under test)
+	Env []string `json:"env,omitempty"`
 	// Unswapped: default-source NewMnemonic calls made after the history and before the probe,
 	// with nothing installed (C07: statistics of genuinely unswapped output).
 	Unswapped []op `json:"unswapped,omitempty"`
@@ -67,6 +70,8 @@ type obs struct {
 	Panic    string `json:"panic,omitempty"`
 	Mutated  bool   `json:"mutated,omitempty"`  // the entropy's backing array changed during the call
 	Unstable string `json:"unstable,omitempty"` // a repetition of the call gave a different result
+	// Skipped: the call was not made because an argument does not fit this build's int (32-bit children)
+	Skipped bool `json:"skipped,omitempty"`
 	// All: for a repeated default-source NewMnemonic, every repetition's output (the parent checks
 	// each against the reference model: right word count, list words, correct checksum, no repeats)
 	All      []string `json:"all,omitempty"`
@@ -74,7 +79,7 @@ type obs struct {
 }
 
 func (o obs) key() string {
-	return fmt.Sprintf("%q|%x|%v|%s|%q|%s|%v|%s", string(o.Str), []byte(o.Bytes), o.Bool, o.Err, string(o.ErrMsg), o.Panic, o.Mutated, o.Unstable)
+	return fmt.Sprintf("%q|%x|%v|%s|%q|%s|%v|%s|%v", string(o.Str), []byte(o.Bytes), o.Bool, o.Err, string(o.ErrMsg), o.Panic, o.Mutated, o.Unstable, o.Skipped)
 }
 
 type report struct {
@@ -178,6 +183,9 @@ func execOnce(o *op, watch *[]liveBuf, name string) obs {
 	_ = x
 	var r obs
 	lang := bip39.Language(o.Lang)
+	if int64(lang) != o.Lang || int64(int(o.N)) != o.N {
+		return obs{Skipped: true}
+	}
 	perr := safely(func() {
 		switch o.Kind {
 		case "encode":
@@ -312,6 +320,10 @@ func childMain(planPath string) int {
 			rep.Solo = append(rep.Solo, res)
 		}
 	}
+	// two collections first: finalizers and pool clean-up that wipe or recycle memory a caller
+	// still holds run now
+	runtime.GC()
+	runtime.GC()
 	for _, w := range watch {
 		if w.changed() {
 			rep.LaterMutated = append(rep.LaterMutated, w.name)
@@ -364,6 +376,16 @@ var childSeq struct {
 	n int
 }
 
+// childEnviron: the child's environment. GOMAXPROCS is also given as a variable, so that code
+// reading it at package initialisation sees the plan's value; plan.Env adds hostile settings.
+func childEnviron(p *plan) []string {
+	env := os.Environ()
+	if p.GOMAXPROCS > 0 {
+		env = append(env, fmt.Sprintf("GOMAXPROCS=%d", p.GOMAXPROCS))
+	}
+	return append(env, p.Env...)
+}
+
 // spawnChild executes the plan in a newly started process (the race build when race is set).
 func spawnChild(p *plan, race bool) *childRun {
 	bin := os.Getenv("VERIF_SELF")
@@ -393,7 +415,7 @@ func spawnChild(p *plan, race bool) *childRun {
 	defer os.Remove(planPath + ".out")
 	raceLog := planPath + ".race"
 	cmd := exec.Command(bin)
-	cmd.Env = append(os.Environ(), "VERIF_PLAN="+planPath, "VERIF_STATS=", "VERIF_FAILCASE=",
+	cmd.Env = append(childEnviron(p), "VERIF_PLAN="+planPath, "VERIF_STATS=", "VERIF_FAILCASE=",
 		"GORACE=halt_on_error=0 exitcode=66 atexit_sleep_ms=0 log_path="+raceLog)
 	var stderr bytes.Buffer
 	cmd.Stderr = &stderr
